@@ -316,6 +316,24 @@ def _gen_call(rng, wp, pool, fns=None, allow_auto=True, want_interval=True, norm
     return {'op': 'call', 'fn': fn, 'form': form, 'sel': sel, 'kw': kw}
 
 
+def _sanitize_near_edges(raw, extra=None):
+    """C13 says reconcile keeps input times inside the common interval 'with tolerance 1e-6': a time
+    that lies within that tolerance OUTSIDE an edge may be kept or dropped.  Such times (they arise
+    from jittered copies next to a shrunken edge) are snapped onto the edge, so that every generated
+    time is either inside, exactly on, or clearly (>= 0.25) outside every interval a selection can have."""
+    starts = sorted(set(sp['e'][0] for sp in raw))
+    ends = sorted(set(sp['e'][1] for sp in raw))
+    lists = [sp['s'] for sp in raw] + ([extra] if extra is not None else [])
+    for s in lists:
+        for k, t in enumerate(s):
+            for E in ends:
+                if 0 < t - E <= 1e-5:
+                    s[k] = E
+            for E in starts:
+                if 0 < E - t <= 1e-5:
+                    s[k] = E
+
+
 def _disorder(rng, wp, s, other_edges):
     """a raw (invalid) version of a valid spike list: shuffled, with repeats"""
     s = list(s)
@@ -417,6 +435,7 @@ def generate(prop, rng, tier):
             raw[k]['s'].append(min(sp['e'][0] for sp in raw) - rng.choice([0.5, 1.0, 3.0]))
             if rng.random() < 0.5:
                 raw[k]['s'].append(max(sp['e'][1] for sp in raw) + rng.choice([0.5, 2.0]))
+        _sanitize_near_edges(raw)
         specs = raw
         pool = list(pool)      # grows: trains returned by reconcile are kept by the caller and reused
         for _ in range(nops):
@@ -458,6 +477,7 @@ def generate(prop, rng, tier):
                 rng.choice([[], [e[0]], [e[1]], [gen.gen_time(rng, wp)]])
             if prop == 'C13':
                 new = _disorder(rng, wp, new, None)
+                _sanitize_near_edges(specs, new)
             ops.insert(rng.randrange(len(ops) + 1),
                        {'op': 'mutate', 'i': k, 's': new, 'how': rng.choice(['rebind', 'inplace', 'sort'])})
     order_seed = rng.randrange(1 << 30)
@@ -821,6 +841,13 @@ def _op_disorder(spk, rec, op, pool, specs, config):
         else:
             passed = [specs[i] for i in sel]
             msel = list(range(len(sel)))
+        lo = min(sp['e'][0] for sp in passed)
+        hi = max(sp['e'][1] for sp in passed)
+        if any((0 < t - hi <= 1e-5) or (0 < lo - t <= 1e-5) for sp in passed for t in sp['s']):
+            # a time within reconcile's 1e-6 tolerance outside the common interval may be kept or
+            # dropped (C13 leaves it open); nothing can be demanded of a measure on such input
+            rec.probe('tolerance_band_input_skipped')
+            return
         mspecs = models.reconcile_model(passed)
         mtrains = make_trains(spk, mspecs)
         st1, r1 = try_invoke(spk, pool, fn, form, sel, kw)
